@@ -213,3 +213,71 @@ def check(run, prog, tier):
             run.ob("C12-f", "cmd-flag-clear:%s:%s:%d" % (rel(f.file), f.name, j), ok, "CMD_IN_BUF cleared at line %s %s" % (n.get("l"), "because the buffer scan found no complete command" if ok else "without consulting cmd_in_buf()/first_cmd_in_buf(): typed-ahead complete lines stay in the buffer unannounced"),
                    f.file, n.get("l"), f.name, what="%s clears CMD_IN_BUF without the buffer scan: a user with a complete command waiting is no longer served" % f.name)
     run.need(ncl >= 2, "stores clearing CMD_IN_BUF (found %d)" % ncl)
+
+    # ---- C12-g nothing but the driver's own constants reaches the flag word that holds the turn
+    run.rule("C12-g", "interactive_t.iflags holds the turn bit (HAS_CMD_TURN) and the command-available bit (CMD_IN_BUF) next to bits that LPC code chooses (input_to()/get_char() flags): every `|=` / `=` into iflags takes a constant, or a value cut down by `& CONSTANT` with a constant that contains neither of the two bits - at the store or, for a parameter, at every call site; a raw integer from LPC would hand its user the turn back in the same cycle", 10)
+    cmask = 0
+    for f0 in prog.functions():
+        for b, i, n in f0.nodes():
+            if n.get("k") == "Asg" and strip(n["L"]).get("k") == "Mem" and strip(n["L"]).get("f") == "iflags" and const_val(n["R"]) is not None:
+                for mname in ("HAS_CMD_TURN", "CMD_IN_BUF"):
+                    if facts.any_in_macro(n["R"], mname) and n.get("op") == "|=":
+                        cmask |= const_val(n["R"])
+    run.need(cmask, "values of HAS_CMD_TURN / CMD_IN_BUF (from their own stores)")
+    byname = {}
+    for f0 in prog.functions():
+        byname.setdefault(f0.name, []).append(f0)
+
+    def cut(f0, e, depth=0):
+        """None if the value is a constant or is cut down by a constant mask without the turn bits; else a reason"""
+        e0 = strip(e)
+        if const_val(e0) is not None:
+            return None
+        if e0.get("k") == "Bin" and e0.get("op") == "&":
+            for a, b2 in ((e0["L"], e0["R"]), (e0["R"], e0["L"])):
+                c = const_val(b2)
+                if c is not None:
+                    return None if not (c & cmask) else "mask 0x%x lets the turn bits through" % c
+            return cut(f0, e0["L"], depth + 1) and cut(f0, e0["R"], depth + 1)
+        if e0.get("k") == "Bin" and e0.get("op") == "|":
+            return cut(f0, e0["L"], depth + 1) or cut(f0, e0["R"], depth + 1)
+        if e0.get("k") == "Un" and e0.get("op") == "~":
+            return "complement of a value"
+        if e0.get("k") == "Cond":
+            return cut(f0, e0["a"], depth + 1) or cut(f0, e0["b"], depth + 1)
+        if e0.get("k") == "Ref" and e0.get("d") == "param" and depth < 3:
+            sites = [(g, c) for gs in byname.values() for g in gs for b2, i2, c in g.calls(f0.name)]
+            if not sites:
+                return "parameter `%s` of %s() (no call site in the driver)" % (e0.get("n"), f0.name)
+            for g, c in sites:
+                args = c.get("args", [])
+                if e0.get("pi") is None or e0["pi"] >= len(args):
+                    return "parameter `%s`" % e0.get("n")
+                why = cut(g, args[e0["pi"]], depth + 1)
+                if why:
+                    return "%s() line %s passes `%s` for `%s`: %s" % (g.name, c.get("l"), show(args[e0["pi"]])[:40], e0.get("n"), why)
+            return None
+        if e0.get("k") == "Ref" and e0.get("d") == "local" and depth < 3:
+            defs = [n2["R"] for b2, i2, n2 in f0.nodes() if n2.get("k") == "Asg" and n2.get("op") == "=" and strip(n2["L"]).get("id") == e0.get("id")]
+            defs += [v["init"] for b2, i2, n2 in f0.nodes() if n2.get("k") == "Decl" for v in n2.get("vars", ()) if v.get("id") == e0.get("id") and isinstance(v.get("init"), dict)]
+            if not defs:
+                return "`%s` has no visible definition" % e0.get("n")
+            for d in defs:
+                why = cut(f0, d, depth + 1)
+                if why:
+                    return why
+            return None
+        return "`%s` is not a constant and not masked" % show(e0)[:40]
+    ng = 0
+    for f0 in sorted(prog.functions(), key=lambda x: (x.file, x.line)):
+        k = 0
+        for b, i, n in f0.nodes():
+            if n.get("k") != "Asg" or n.get("op") not in ("|=", "=") or strip(n["L"]).get("k") != "Mem" or strip(n["L"]).get("f") != "iflags" or "interactive" not in (strip(n["L"]).get("rec") or ""):
+                continue
+            ng += 1
+            run.saw(f0)
+            why = cut(f0, n["R"])
+            run.ob("C12-g", "iflags-store:%s:%d" % (f0.name, k), why is None, "`%s`: a constant or a masked value" % show(n)[:60] if why is None else "`%s` (line %s): %s" % (show(n)[:50], n.get("l"), why), f0.file, n.get("l"), f0.name,
+                   what="%s stores a value into iflags that is not cut down to the caller-settable bits: %s" % (f0.name, why))
+            k += 1
+    run.need(ng >= 10, "stores into iflags (found %d)" % ng)
